@@ -35,3 +35,7 @@ package fileutil
 //@ requires gDirtyDir == 0 && uf("pathdir", dir) != dir && uf("pathdir", dir) != 0
 //@ modifies gDirtyDir
 //@ ensures result == nil ==> gDirtyDir == 0
+
+//@ func GetFlagFileContent [C16]
+//@ trusted reads and checks the flag file, decodes its content into msg
+//@ modifies pointee(msg)
